@@ -478,7 +478,74 @@ pub fn run(ck: &mut Check) {
         room_version_oracle,
     );
     ck.floor("room_version_ids", "numeric_ids_of_different_length", 5000);
+    let n = ck.n(60_000, 2_000_000);
+    ck.prop(
+        "join_rule_object_form",
+        n,
+        || {
+            let one = || prop_oneof![
+                2 => (0usize..6).prop_map(|i| ["public", "invite", "knock", "private", "restricted", "knock_restricted"][i].to_owned()),
+                3 => ((0usize..6), any::<u8>(), any::<u16>()).prop_map(|(i, how, pos)| near_miss(["public", "invite", "knock", "private", "restricted", "knock_restricted"][i], how, pos)),
+                2 => "[a-z\"\\\\\n\t\u{0}\u{1f} .é\u{1F600}]{0,10}",
+                1 => "\\PC{0,8}",
+            ];
+            (one(), one(), one()).prop_map(|(a, b, c)| EnumCase { ty: "events::JoinRule".into(), a, b, c })
+        },
+        join_rule_oracle,
+    );
+    ck.floor("join_rule_object_form", "value_needing_json_escape", 5000);
+    ck.floor("join_rule_object_form", "specified_spelling", 5000);
     ck.floor("room_version_ids", "custom_version", 5000);
+}
+
+/// ruma-events' `JoinRule` is a string-valued enum embedded in the content object (`join_rule` tag,
+/// `allow` list for the restricted rules); custom values are deserialise-only (`skip_serializing`).
+fn join_rule_oracle(c: &EnumCase, cx: &mut CaseCtx) -> Result<(), String> {
+    use ruma_events::room::join_rules::{JoinRule, RoomJoinRulesEventContent};
+    const KNOWN: [&str; 6] = ["public", "invite", "knock", "private", "restricted", "knock_restricted"];
+    for (i, s) in [&c.a, &c.b, &c.c].into_iter().enumerate() {
+        let needs_escape = s.chars().any(|ch| ch == '"' || ch == '\\' || (ch as u32) < 0x20);
+        cx.class_if(needs_escape, "value_needing_json_escape");
+        cx.class_if(KNOWN.contains(&s.as_str()), "specified_spelling");
+        cx.class_if(!KNOWN.contains(&s.as_str()), "unknown_value");
+        cx.nontrivial_if(!KNOWN.contains(&s.as_str()));
+        // the object as JSON text (serde_json escapes what must be escaped) and as a value; the third
+        // string is additionally written with \\uXXXX escapes for every character
+        let mut obj = serde_json::json!({"join_rule": s, "allow": []});
+        if i == 1 {
+            obj.as_object_mut().unwrap().remove("allow");
+        }
+        let mut texts = vec![serde_json::to_string(&obj).unwrap()];
+        if i == 2 {
+            let esc: String = s.encode_utf16().map(|u| format!("\\u{u:04x}")).collect();
+            texts.push(format!("{{\"join_rule\":\"{esc}\"}}"));
+        }
+        for text in &texts {
+            let r: JoinRule = serde_json::from_str(text).map_err(|e| format!("JoinRule rejects the value {s:?} (text {text}): {e}"))?;
+            if r.as_str() != s {
+                return Err(format!("JoinRule: {s:?} comes back as {:?}", r.as_str()));
+            }
+            let dedicated = !matches!(r, JoinRule::_Custom(_));
+            if dedicated != KNOWN.contains(&s.as_str()) {
+                return Err(format!("JoinRule: {s:?} maps to {r:?}"));
+            }
+            let content: RoomJoinRulesEventContent = serde_json::from_str(text).map_err(|e| format!("RoomJoinRulesEventContent rejects join_rule {s:?}: {e}"))?;
+            if content.join_rule.as_str() != s {
+                return Err(format!("RoomJoinRulesEventContent: join_rule {s:?} comes back as {:?}", content.join_rule.as_str()));
+            }
+            if dedicated {
+                let back = serde_json::to_value(&r).map_err(|e| e.to_string())?;
+                if back.get("join_rule").and_then(|x| x.as_str()) != Some(s.as_str()) {
+                    return Err(format!("JoinRule {s:?} serialises as {back}"));
+                }
+            }
+        }
+        let via_value: JoinRule = serde_json::from_value(obj.clone()).map_err(|e| format!("JoinRule rejects the value {s:?} (from_value): {e}"))?;
+        if via_value.as_str() != s {
+            return Err(format!("JoinRule (from_value): {s:?} comes back as {:?}", via_value.as_str()));
+        }
+    }
+    Ok(())
 }
 
 fn room_version_oracle(c: &EnumCase, cx: &mut CaseCtx) -> Result<(), String> {
